@@ -96,6 +96,85 @@ CLAIMS = {
         note=TB + "NOT decided: order isomorphism for all pairs of strings (relation over values).",
         technique="table folding; outcome enumeration by abstract evaluation; polynomial extraction; regex AST parsing",
         ref="5/C20"),
+
+    "C01": dict(
+        text="Static, partial: typestate over every construction site of the full envelope model proves that each site that "
+             "serialises (3 today) calls update_severable_digests then update_digest before to_cbor/get_manifest_digest on every "
+             "path; access-path analysis proves that each refresher hashes the byte-string-wrapped member taken from the same "
+             "envelope map (wrap decided on the schema graph), reads the algorithm from position 0 of the very digest whose "
+             "position 1 it overwrites, for the manifest and for each of the six severable members, that no member the "
+             "manifest can reference by digest is missing from the list, that the overwrite is not control-dependent on the "
+             "supplied digest, and that the hash table has the five algorithms with the stated output lengths.",
+        note=TB + "NOT decided: numeric equality of a digest with the bytes; that to_cbor() of the parsed member reproduces the "
+                  "bytes for every integer/length width (cbor2 round trip on values).",
+        technique="typestate (must-precede on all paths) + access-path/provenance analysis on abstract terms + table folding",
+        ref="5/C01"),
+    "C05": dict(
+        text="Static, partial: for every reference form the value create stores is compared with the reference derivation: "
+             "file -> SuitHash(object's own algorithm).hash(whole binary content of that branch's path), file_direct -> whole "
+             "content as hex, envelope -> child built from inline description or whole file, refreshed, manifest digest under "
+             "the parent's algorithm, raw -> identity; sizes via getsize / len(processed child) / int(text) / identity; payloads "
+             "inline / path / hex; embedded dependency goes through the same four-call pipeline as stand-alone creation. The "
+             "hex-before-path classification order is a recorded known finding.",
+        note=TB + "Recognised 'whole binary content' idiom: open(p,'rb') + read() with no argument. NOT decided: equality of "
+                  "digests/sizes with the files' contents.",
+        technique="provenance analysis (backward slice on abstract terms) per reference form; sibling agreement of pipelines",
+        ref="5/C05"),
+    "C07": dict(
+        text="Static, partial: both SoC slot tables folded and checked (roles unique/complete, slots disjoint, domain = role & "
+             "0xF0, equal to the storage ABI reference), default class tables; add_envelope evaluated abstractly: slot record "
+             "cbor({0:1,1:offset,2:envelope}), class id = 16 bytes at the recorded offset of the same bytes that are stored, "
+             "prefix constant re-derived from the schema with the verifier's CBOR encoder, five rejections each dominating the "
+             "single commit with the exact size comparison; placement/padding/domain filter all from one layout entry; all "
+             "adds precede the first write (across loop iterations); sever list vs. schema-derived severable set.",
+        note=TB + "reference/storage_abi.json is the device ABI transcribed from the pinned tree (no independent source offline); "
+                  "the structural invariants are independent of it. NOT decided: byte identity of the re-encoded "
+                  "manifest/wrapper; that the byte search hits the component id and not an earlier coincidence.",
+        technique="table folding + arithmetic on constants; abstract evaluation; dominance (reject-before-commit, add-before-write)",
+        ref="5/C07"),
+    "C09": dict(
+        text="Static, partial: every already-signed action has its own branch with its own effect set (error raises before any "
+             "change; remove-old removes the matched tag-18 block and stores the list back and falls through; skip only sets "
+             "a flag that is reset per call and tested before the KMS/add_signature); key/algorithm check dominates signing, "
+             "fails closed and accepts exactly {EC-n: es-n, Ed: eddsa|hash-eddsa}; no output before signing returned, no "
+             "swallowing handler, dependency checks (4 refusals) before any signature; recursive wiring (child = own bytes, own "
+             "config, own name, inherited script/KMS/alg/context; node's own key; bottom-up; stored back under the same name; "
+             "omit-signing guards only the node's signature); configuration keys never read unguarded; decoded-tag mutation rule.",
+        note=TB + "NOT decided: that the right key produced a verifying signature; byte identity after cbor2 re-encoding.",
+        technique="abstract evaluation with guard-indexed effects; dominance/typestate; enum exhaustiveness; configuration-key contradiction rule (AST dominance)",
+        ref="5/C09"),
+    "C10": dict(
+        text="Static, partial: slot layout [BF]|cbor(uri)|5A|u32be len(data)|data with header byte checked against the width "
+             "that follows and the value encoded; BF only under the first-slot guard cleared in the same branch; padding "
+             "arithmetic decided without enumerating sizes: round-up recognised, invariant rounded-len==padding on every "
+             "path (linear normal forms), padding in {0,1} cannot reach the header code (tiny integer-constraint check over "
+             "the remainder and block size), header bytes emitted == declared bookkeeping, declared length fits the header "
+             "form in each branch, zero fill; duplicate URI raises before anything is recorded; close appends one FF before "
+             "the only write; merge re-adds every non-empty key with its own value through add_cache_slot.",
+        note=TB + "NOT decided: that the file decodes to exactly the supplied pairs (cbor2 decoder on the indefinite map).",
+        technique="byte-layout abstract evaluation + linear/interval reasoning on the padding size + dominance",
+        ref="5/C10"),
+    "C11": dict(
+        text="Static, partial: string keys partitioned by re.fullmatch of the two patterns with the right polarity; dependencies "
+             "removed from the candidates before payload selection; each extracted key popped (not copied) and handed to the "
+             "cache under the same key; each dependency recursed with the same two patterns and stored back under its own "
+             "key; write set on the envelope map is exactly that; result re-encodes the same tag; single extraction pops, "
+             "optionally replaces under the same name with the whole replacement file, writes the popped bytes unmodified, "
+             "dumps after the modification; decoded-tag mutation rule.",
+        note=TB + "NOT decided: byte identity of untouched members after cbor2.dumps.",
+        technique="abstract evaluation (same-key pairing, write-set, provenance) + interprocedural provenance fixpoint for decoded tag content",
+        ref="5/C11"),
+    "C15": dict(
+        text="Static, partial: X||Y widths are one expression independent of the coordinate values evaluating to 32/48/66, big "
+             "endian, X then Y; raw fallback only on AttributeError; key bytes depend on the key file only (no converter option "
+             "reaches them); rows cover every byte once in order, trailing comma removal, sizeof(<same array>); generator call "
+             "passes a curve instance as the installed cryptography requires; curve table, Ed dispatch, exactly one key "
+             "generated per pair and public derived from it, encodings/formats from the CLI tables whose choices are the "
+             "tables' own keys; ValueError -> GeneratorError.",
+        note=TB + "Library fact: cryptography rejects a curve class ('curve must be an EllipticCurve instance'). NOT decided: "
+                  "that the files load with standard tooling.",
+        technique="data-independence of a width (abstract terms) + non-interference + library-fact call conformance + table checks",
+        ref="5/C15"),
 }
 
 NOT_YET = "check not built yet in this round (see DESIGN.md section 9 build order)"
